@@ -91,6 +91,12 @@ def strategy(draw):
                         "filt": draw(st.sampled_from(["PASS", "PASS", ".", "q10"])), "idp": draw(st.integers(0, 200)), "g": gs})
         pos[c] += len(ref)
 
+    if nsamp >= 2 and draw(st.integers(0, 5)) == 0:
+        # a caller that never genotypes the normal (Mutect2 style): the last sample is 0/0 in every record, whatever its
+        # allele counts say - the regime of the library's "infer genotypes from frequencies" workaround
+        for r in records:
+            r["g"][-1]["gt"] = "0/0"
+
     def selector():
         k = draw(st.integers(0, 5))
         if k <= 2:
